@@ -94,6 +94,9 @@ def rapidcheck_campaign(rep, prop, binary, seed, nchunks, chunk, extra_jobs=(), 
                 else:
                     rep.add_violation(core.Violation(prop, "%s | %s" % (f["what"], f.get("detail", "")), {"property": prop, "failure": f}))
     cov.setdefault("engines", []).append({"engine": "rapidcheck", "processes": nchunks, "max_success_per_property_per_process": chunk, "outcomes": outcomes})
+    if outcomes.get("inconclusive", 0) * 2 > len(results):
+        # a time budget hit is never a violation, but a run in which most processes hit it has decided nothing and must not look like a pass
+        rep.undecided = "%d of %d harness processes exceeded their budget (even without shrinking): nothing was decided" % (outcomes["inconclusive"], len(results))
     return mg
 
 
